@@ -2,7 +2,7 @@
    evaluated on one observed step of the implementation.  The clause names are the
    ones printed after `propfail`. *)
 open Backend
-let eval ?(kill_timeout = false) (prev : state) (op : op) (r : result) (next : state) : (string * bool) list =
+let eval (prev : state) (op : op) (r : result) (next : state) : (string * bool) list =
   let retained_head = match op with
     | ODequeue (c, temp) ->
       (match session_of prev c with
@@ -26,5 +26,5 @@ let eval ?(kill_timeout = false) (prev : state) (op : op) (r : result) (next : s
     (* backend side of C08 *)
     ("offline_queue", BackendC08.offline_queue_ok prev op r next);
     ("session_present", BackendC08.session_present_ok prev op r next);
-    (* C13 uniqueness invariant: stated for histories without kill timeout and without backend Close *)
-    ("unique", kill_timeout || BackendC13.unique_ok next) ]
+    (* C13 uniqueness invariant: every state of every history *)
+    ("unique", BackendC13.unique_ok next) ]
